@@ -13,11 +13,10 @@
 Python `str`/`bytes` = `List Char` (ASCII only in `.gitignore` contents: `decode('utf-8','ignore')`
 is the identity there).  Python sets are lists; only membership is ever asked.
 
-`except_paths` holds objects of two Python types that never compare equal to each other:
-`pathlib.Path` (what `file_io.path` is: parso's `FileIO` converts) and `str` (what
-`folder_io.path` is, and what `gitignored_paths` adds with `os.path.join`).  The model keeps the
-two kinds apart (`exceptPath`, `exceptStr`): a file is tested against the first, a folder against
-the second, exactly as `in` on the mixed Python set behaves. -/
+`file_io.path` is a `pathlib.Path` (parso's `FileIO` converts), `folder_io.path` and the `.gitignore`
+entries are `str`; the code compares everything as `str` (`set(str(p) for p in except_paths)`,
+`str(path) not in …`), so the model has one kind of path: `Str`.  `str(Path(s)) = s` is assumed for
+the file paths `os.path.join(root, name)` the walk builds (normalised project root). -/
 namespace JediModel.Walk
 
 abbrev Str := List Char
@@ -73,6 +72,8 @@ structure Cfg where
   gitignoreName : Str
   /-- the conjuncts of the folder filter, by name, as found in the source -/
   conjuncts : List String
+  /-- the conjuncts of the file filter (second `for file_io in file_ios` loop) -/
+  fileConjuncts : List String
   skipPrefixes : List Char
   skipContains : List Char
 
@@ -109,9 +110,14 @@ def gitignoredPaths (cfg : Cfg) (folder : Str) (content : Str) : List Str × Lis
   (ls.filterMap (fun x => match x with | .inl a => some a | .inr _ => none),
    ls.filterMap (fun x => match x with | .inl _ => none | .inr r => some r))
 
-/-- `expand_relative_ignore_paths(folder_io, relative_paths)`; note `startswith` on strings -/
+/-- the test of `expand_relative_ignore_paths`: the entries of the `.gitignore` in folder `g` apply in
+`curr` iff `curr == g or curr.startswith(g.rstrip(os.path.sep) + os.path.sep)` -/
+def covers (g curr : Str) : Bool :=
+  decide (curr = g) || (rstripSlash g ++ ['/']).isPrefixOf curr
+
+/-- `expand_relative_ignore_paths(folder_io, relative_paths)` -/
 def expandRel (curr : Str) (rel : List (Str × Str)) : List Str :=
-  (rel.filter (fun p => p.1.isPrefixOf curr)).map (fun p => osJoin curr p.2)
+  (rel.filter (fun p => covers p.1 curr)).map (fun p => osJoin curr p.2)
 
 /-! ## the directory tree and the walk -/
 
@@ -128,82 +134,101 @@ inductive Forest where
   | cons (name : Str) (files : List FileEnt) (children : Forest) (rest : Forest)
 deriving Repr
 
-/-- the state `recurse_find_python_folders_and_files` carries through the whole walk -/
+/-- the state `recurse_find_python_folders_and_files` carries through the whole walk.  After
+`except_paths = set(str(p) for p in except_paths)` every member of `except_paths` is a `str`. -/
 structure St where
-  /-- `pathlib.Path` members of `except_paths` -/
-  exceptPath : List Str
-  /-- `str` members of `except_paths` -/
-  exceptStr : List Str
+  /-- `except_paths` -/
+  exc : List Str
   /-- `except_paths_relative`: `(folder of the .gitignore, name)` -/
   rel : List (Str × Str)
 deriving Repr, DecidableEq
 
-/-- what the generator yields; `anc` is ghost information for the theorems: the directories
-entered below the root on the way to this entry, outermost first, as `(parent path, name)`;
-for a folder event the folder itself is the last element. -/
+/-- ghost information about one directory entered on the way to an event: the path of its parent,
+its name, and its file listing (as `os.walk` produced it) -/
+structure Anc where
+  parent : Str
+  name : Str
+  files : List FileEnt
+deriving Repr, DecidableEq
+
+/-- what the generator yields: `isFile`, `path` (= `str(file_io.path)` / `folder_io.path`).
+`name` and `anc` are ghost information for the theorems: the name of the entry in its listing and
+the directories entered below the root on the way to this entry, outermost first; for a folder
+event the folder itself is the last element. -/
 structure Ev where
   isFile : Bool
   path : Str
-  anc : List (Str × Str)
+  name : Str
+  anc : List Anc
 deriving Repr, DecidableEq
 
 def isPy (cfg : Cfg) (name : Str) : Bool := cfg.pySuffixes.contains (suffix name)
 
-/-- the `for file_io in file_ios` loop of one `os.walk` step -/
-def processFiles (cfg : Cfg) (root : Str) (anc : List (Str × Str)) : St → List FileEnt → List Ev × St
-  | st, [] => ([], st)
+/-- the first `for file_io in file_ios` loop of one `os.walk` step: every `.gitignore` of the
+listing is read -/
+def readGitignores (cfg : Cfg) (root : Str) : St → List FileEnt → St
+  | st, [] => st
   | st, f :: fs =>
-    let p := osJoin root f.name
-    let out := if isPy cfg f.name ∧ p ∉ st.exceptPath then [Ev.mk true p anc] else []
-    let st' := if f.name = cfg.gitignoreName then
-        let g := gitignoredPaths cfg root f.content
-        { st with exceptStr := st.exceptStr ++ g.1, rel := st.rel ++ g.2 }
-      else st
-    let r := processFiles cfg root anc st' fs
-    (out ++ r.1, r.2)
+    if f.name = cfg.gitignoreName then
+      let g := gitignoredPaths cfg root f.content
+      readGitignores cfg root { exc := st.exc ++ g.1, rel := st.rel ++ g.2 } fs
+    else readGitignores cfg root st fs
 
+/-- one conjunct of the file filter / the folder filter, by the name the translator gave it;
+`root` is the directory being listed, `name` the entry -/
 def conjunct (cfg : Cfg) (root : Str) (st : St) (name : Str) (c : String) : Bool :=
-  if c = "not_in_except_paths" then !(decide (osJoin root name ∈ st.exceptStr))
+  if c = "not_in_except_paths" then !(decide (osJoin root name ∈ st.exc))
   else if c = "not_in_relative_expanded" then !(decide (osJoin root name ∈ expandRel root st.rel))
   else if c = "base_name_not_ignored" then !(decide (name ∈ cfg.ignoreFolders))
   else true
+
+/-- `str(path) not in except_paths and str(path) not in except_paths_relative_expanded` -/
+def fileOk (cfg : Cfg) (root : Str) (st : St) (name : Str) : Bool :=
+  cfg.fileConjuncts.all (conjunct cfg root st name)
+
+/-- the second `for file_io in file_ios` loop: the `.py/.pyi` files that pass the file filter -/
+def fileEvents (cfg : Cfg) (root : Str) (anc : List Anc) (st : St) (files : List FileEnt) : List Ev :=
+  (files.filter (fun f => isPy cfg f.name && fileOk cfg root st f.name)).map
+    (fun f => ⟨true, osJoin root f.name, f.name, anc⟩)
 
 /-- the filter of `folder_ios[:] = [...]` -/
 def keepDir (cfg : Cfg) (root : Str) (st : St) (name : Str) : Bool :=
   cfg.conjuncts.all (conjunct cfg root st name)
 
 /-- `for folder_io in folder_ios: yield folder_io, None` after the filter -/
-def folderEvents (cfg : Cfg) (root : Str) (anc : List (Str × Str)) (st : St) : Forest → List Ev
+def folderEvents (cfg : Cfg) (root : Str) (anc : List Anc) (st : St) : Forest → List Ev
   | .nil => []
-  | .cons name _ _ rest =>
+  | .cons name files _ rest =>
     if keepDir cfg root st name then
-      Ev.mk false (osJoin root name) (anc ++ [(root, name)]) :: folderEvents cfg root anc st rest
+      Ev.mk false (osJoin root name) name (anc ++ [⟨root, name, files⟩]) :: folderEvents cfg root anc st rest
     else folderEvents cfg root anc st rest
 
 /-- `os.walk` descending (top-down) into the sibling list `dirs` of `root` after the consumer
 pruned it with the state `frozen` (the state at the end of the step for `root`); `st` is the
 state threaded through the generator.  By `walk_sync_filter` the directories `os.walk` still
 sees are exactly those that pass `keepDir … frozen`. -/
-def walkForest (cfg : Cfg) (root : Str) (anc : List (Str × Str)) (frozen : St) : St → Forest → List Ev × St
+def walkForest (cfg : Cfg) (root : Str) (anc : List Anc) (frozen : St) : St → Forest → List Ev × St
   | st, .nil => ([], st)
   | st, .cons name files children rest =>
     if keepDir cfg root frozen name then
       let p := osJoin root name
-      let anc' := anc ++ [(root, name)]
-      let r0 := processFiles cfg p anc' st files
-      let fev := folderEvents cfg p anc' r0.2 children
-      let r1 := walkForest cfg p anc' r0.2 r0.2 children
+      let anc' := anc ++ [⟨root, name, files⟩]
+      let s := readGitignores cfg p st files
+      let fe := fileEvents cfg p anc' s files
+      let fev := folderEvents cfg p anc' s children
+      let r1 := walkForest cfg p anc' s s children
       let r2 := walkForest cfg root anc frozen r1.2 rest
-      (r0.1 ++ fev ++ r1.1 ++ r2.1, r2.2)
+      (fe ++ fev ++ r1.1 ++ r2.1, r2.2)
     else walkForest cfg root anc frozen st rest
 
 /-- `recurse_find_python_folders_and_files(FolderIO(root), except_paths)` on the tree whose top
 directory `root` lists `files` and the directories `children` -/
 def walkRoot (cfg : Cfg) (root : Str) (st : St) (files : List FileEnt) (children : Forest) : List Ev × St :=
-  let r0 := processFiles cfg root [] st files
-  let fev := folderEvents cfg root [] r0.2 children
-  let r1 := walkForest cfg root [] r0.2 r0.2 children
-  (r0.1 ++ fev ++ r1.1, r1.2)
+  let s := readGitignores cfg root st files
+  let fe := fileEvents cfg root [] s files
+  let fev := folderEvents cfg root [] s children
+  let r1 := walkForest cfg root [] s s children
+  (fe ++ fev ++ r1.1, r1.2)
 
 /-! ## open / parse limits -/
 
